@@ -38,6 +38,7 @@ include!(concat!(env!("OUT_DIR"), "/mounts.rs"));
 mod c16;
 mod c18;
 mod c19;
+mod cover;
 mod svc;
 #[cfg(feature = "rustc_ref")]
 mod c03;
@@ -166,6 +167,7 @@ fn main() {
         "c16" => c16::main(rest),
         "c18" => c18::main(rest),
         "c19" => c19::main(rest),
+        "cover" => cover::main(rest),
         #[cfg(feature = "rustc_ref")]
         "c03" => c03::main(rest),
         _ => {
